@@ -100,7 +100,42 @@ def runOp (s : Ev) (j : Json) : Except String (Ev × Json) := do
     return (r.1, opOut none (some (stopName r.2)) r.1)
   | _ => throw s!"unknown op {op}"
 
+def statusOfCode (n : Nat) : Except String Status :=
+  match n with
+  | 0 => pure .ready | 1 => pure .running | 2 => pure .done | 3 => pure .cancelling | 4 => pure .cancelled
+  | _ => throw s!"bad status code {n}"
+
+def jJobObs (j : Json) : Except String JobObs := do
+  let log ← (← jList jNat (← field j "log")).mapM statusOfCode
+  return { log := log, start := ← jNat (← field j "start"), ret := ← jNat (← field j "ret"),
+           natEnd := ← jNat (← field j "natEnd"), deadline := ← jOptNat (fieldD j "deadline" Json.null),
+           saw := ← jBool (← field j "saw"), pollsAgain := ← jBool (← field j "pollsAgain"),
+           tie := ← jBool (← field j "tie"), gathered := ← jBool (← field j "gathered"),
+           valueKept := ← jBool (← field j "valueKept") }
+
+/-- `{"op":"checklog","jobs":[…],"results":[…],"complete":bool}`: the verified checker on observed logs,
+plus the value of each conjunct and the first offending job of the per-job clauses (for the fingerprint) -/
+def handleCheck (j : Json) : Except String Json := do
+  let jobs ← jList jJobObs (← field j "jobs")
+  let results ← jList jNat (← field j "results")
+  let complete ← jBool (← field j "complete")
+  let o : Obs := { jobs := jobs, results := results, complete := complete }
+  let idxs := List.range jobs.length
+  let firstBad (p : JobObs → Bool) : Json :=
+    match idxs.find? (fun i => match jobs[i]? with | some jb => !p jb | none => false) with
+    | some i => nat i
+    | none => Json.null
+  return Json.mkObj [("ok", true), ("check", checkStatusLog o),
+    ("monotone", jobs.all (fun jb => monotoneB jb.log)),
+    ("once", decide results.Nodup && results.all (fun i => decide (i < jobs.length))),
+    ("complete", !complete || idxs.all (fun i => results.contains i)),
+    ("terminal", results.all (fun i => match jobs[i]? with | some jb => terminalB jb.log | none => true)),
+    ("classified", jobs.all (fun jb => !jb.gathered || jb.tie || (classifiedB jb && jb.valueKept))),
+    ("badMonotone", firstBad (fun jb => monotoneB jb.log)),
+    ("badClassified", firstBad (fun jb => !jb.gathered || jb.tie || (classifiedB jb && jb.valueKept)))]
+
 def handle (j : Json) : Except String Json := do
+  if (fieldD j "op" Json.null) == Json.str "checklog" then return ← handleCheck j
   let W ← jNat (← field j "W")
   let hpo ← jBool (fieldD j "hpo" false)
   let specs ← jList jSpec (← field j "specs")
